@@ -2,10 +2,13 @@ from __future__ import annotations
 
 from typing import Awaitable, Callable, Optional, Tuple, Union
 
+from h2.exceptions import H2Error
+from hyperframe.exceptions import HyperframeError
+
 from .h2 import H2Protocol
 from .h11 import H2CProtocolRequiredError, H2ProtocolAssumedError, H11Protocol
 from ..config import Config
-from ..events import Event, RawData, Updated
+from ..events import Closed, Event, RawData, Updated
 from ..typing import AppWrapper, ConnectionState, TaskGroup, WorkerContext
 
 
@@ -94,6 +97,12 @@ class ProtocolWrapper:
                 self.server,
                 self.send,
             )
-            await self.protocol.initiate(error.headers, error.settings)
+            try:
+                await self.protocol.initiate(error.headers, error.settings)
+            except (ValueError, H2Error, HyperframeError):
+                # The client's HTTP2-Settings is not something HTTP/2
+                # can be started with, there is nothing to carry on.
+                await self.send(Closed())
+                return
             if error.data != b"":
                 return await self.protocol.handle(RawData(data=error.data))
